@@ -2003,6 +2003,181 @@ def task_pmf_wiring(scratch, tier, seed, logdir):
     return [ob.done()]
 
 
+PROJECTION_NATIVE_TEST = r"""
+    #[test]
+    fn kv_projection_history_independent() {
+        // every pair of consecutive sites through ONE PartialProjection: the second site's
+        // projection must be what a fresh PartialProjection gives for it
+        fn run(p: &mut PartialProjection, pf: &Count, from: &Count, cells: usize) -> Vec<u64> {
+            let mut scs = Scs::from_zeros(p.project_to().clone().into_shape());
+            p.project_unchecked(pf, from).add_unchecked(&mut scs);
+            assert_eq!(scs.inner().iter().count(), cells);
+            scs.inner().iter().map(|x| x.to_bits()).collect()
+        }
+        let to = [2usize, 2];
+        let mut sites: Vec<(Count, Count)> = Vec::new();
+        for a in 2..=8usize {
+            for b in 2..=8usize {
+                for (x, y) in [(0usize, 1usize), (1, 0), (a / 2, b), (a, b / 2), (1, 1)] {
+                    sites.push((Count::from([a, b]), Count::from([x.min(a), y.min(b)])));
+                }
+            }
+        }
+        for (i, (pf1, f1)) in sites.iter().enumerate() {
+            for (pf2, f2) in sites.iter().skip(i % 7).step_by(7) {
+                let mut shared = PartialProjection::new(Count::from(to));
+                let _ = run(&mut shared, pf1, f1, 9);
+                let second = run(&mut shared, pf2, f2, 9);
+                let fresh = run(&mut PartialProjection::new(Count::from(to)), pf2, f2, 9);
+                assert_eq!(second, fresh, "site (sizes {pf2:?}, counts {f2:?}) projected after (sizes {pf1:?}, counts {f1:?}) differs from the same site projected alone");
+            }
+        }
+    }
+"""
+
+
+def task_projection_wiring(scratch, tier, seed, logdir):
+    """C02 / C11: a projected site is a function of the site alone.  PartialProjection::project_unchecked
+    zeroes its scratch index and hands (project_from, &self.project_to, from, &mut self.to_buf) to
+    Projected::new_unchecked -> ProjectIter::new_unchecked (index 0, weight 1.0); no branch, no other
+    field of the projection is read or written (a cache would be history)."""
+    fns = fns_for(scratch, "sfs-core")
+    ob = Ob("projection_wiring", ["PartialProjection::project_unchecked", "Projection::project_unchecked", "Projected::new_unchecked", "ProjectIter::new_unchecked"],
+            "every path; calls uninterpreted")
+    dev = []
+    try:
+        src = os.path.join(scratch.src, "core/src/spectrum/project.rs")
+        pp = struct_fields(src, "PartialProjection")
+        pj = struct_fields(src, "Projection")
+        if sorted(pp) != ["project_to", "to_buf"]:
+            dev.append("PartialProjection carries state besides its target and its scratch index: " + ", ".join(sorted(pp)))
+        def only(pat, params, args):
+            f = mir.find_fn(fns, pat, params=params)
+            ps = mir.Exec(f, [], max_paths=200).run(args)
+            ob.d["queries"] += len(ps)
+            rs = [p for p in ps if p.end == "return"]
+            return rs
+        refs = lambda names: {k: v for i, n in enumerate(names, 1) for k, v in ((f"_{i}", ("ref", f"${n}")), (f"${n}", V(n, "U")))}
+        rs = only(r"project\.rs>::project_unchecked$", ["PartialProjection"], refs(["self", "project_from", "from"]))
+        PT, TB = pp.get("project_to"), pp.get("to_buf")
+        want = f"Projected::<'_>::new_unchecked(project_from, refto(field(self, {PT})), from, refto(count::Count::set_zero!mut0(refto(field(self, {TB})))))"
+        if len(rs) != 1 or rs[0].state.pc or show(rs[0].ret) != want:
+            dev.append("PartialProjection::project_unchecked is not [to_buf.set_zero(); Projected::new_unchecked(project_from, &project_to, from, &mut to_buf)]: " + "; ".join(show(r.ret) for r in rs)[:300])
+        rs = only(r"project\.rs>::project_unchecked$", ["&mut Projection"], refs(["self", "from"]))
+        want = f"PartialProjection::project_unchecked(refto(field(self, {pj['inner']})), refto(field(self, {pj['project_from']})), from)"
+        if len(rs) != 1 or rs[0].state.pc or show(rs[0].ret) != want:
+            dev.append("Projection::project_unchecked is not inner.project_unchecked(&self.project_from, from): " + "; ".join(show(r.ret) for r in rs)[:300])
+        ob.d["nonvacuous"] = True
+        f_all = [f for f in fns if re.search(r"project\.rs>::new_unchecked$", mir.norm_name(f.name))]
+        seen = set()
+        for f in f_all:
+            if len(f.params) != 4:
+                continue
+            for r in [p for p in mir.Exec(f, [], max_paths=50).run(refs(["project_from", "project_to", "from", "to"])) if p.end == "return"]:
+                t = show(r.ret)
+                if t == "ctor:Projected(ProjectIter::<'_>::new_unchecked(project_from, project_to, from, to), 1.0)":
+                    seen.add("projected")
+                elif t in ("ctor:ProjectIter(&$project_from, &$project_to, &$from, &$to, 0)", "ctor:ProjectIter(project_from, project_to, from, to, 0)"):
+                    seen.add("iter")
+                else:
+                    dev.append("unexpected constructor: " + t[:200])
+        if seen != {"projected", "iter"}:
+            dev.append(f"constructors recognised: {sorted(seen)}")
+        if dev:
+            # a deviation is a violation only if the real code then shows history dependence natively
+            ob.fail("violation", " | ".join(dev))
+            ob.d["native_test"] = dict(crate="sfs-core", file="core/src/spectrum/project.rs", name="kv_projection_history_independent", code=PROJECTION_NATIVE_TEST)
+    except (LookupError, ValueError, RuntimeError, KeyError, IndexError, AttributeError, TypeError) as e:
+        ob.fail("inconclusive", f"translator: {type(e).__name__}: {e}" + (" | " + " | ".join(dev) if dev else ""))
+        if dev:
+            ob.d["status"] = "violation"
+            ob.d["native_test"] = dict(crate="sfs-core", file="core/src/spectrum/project.rs", name="kv_projection_history_independent", code=PROJECTION_NATIVE_TEST)
+    return [ob.done()]
+
+
+FOLD_NATIVE_TEST = r"""
+    #[test]
+    fn kv_fold_history_independent() {
+        // folding B after A (same thread) must equal folding B first thing in a new thread
+        fn bits(shape: &[usize]) -> Vec<u64> {
+            let n: usize = shape.iter().product();
+            let scs = Scs::new((0..n).map(|i| (i * i + 1) as f64).collect::<Vec<_>>(), crate::array::Shape(shape.to_vec())).unwrap();
+            scs.fold().into_spectrum(-1.0).inner().iter().map(|x| x.to_bits()).collect()
+        }
+        let shapes: Vec<Vec<usize>> = vec![
+            vec![6], vec![2, 3], vec![3, 2], vec![1, 6], vec![6, 1], vec![2, 3, 1], vec![1, 2, 3], vec![3, 1, 2],
+            vec![4], vec![2, 2], vec![4, 1], vec![12], vec![3, 4], vec![4, 3], vec![2, 6], vec![2, 2, 3], vec![3, 2, 2], vec![5], vec![9], vec![3, 3],
+        ];
+        for a in &shapes {
+            for b in &shapes {
+                let (a1, b1, b2) = (a.clone(), b.clone(), b.clone());
+                let alone = std::thread::spawn(move || bits(&b1)).join().unwrap();
+                let after = std::thread::spawn(move || {
+                    let _ = bits(&a1);
+                    bits(&b2)
+                })
+                .join()
+                .unwrap();
+                assert_eq!(after, alone, "folding shape {b:?} after shape {a:?} differs from folding it alone");
+            }
+        }
+    }
+"""
+
+
+def task_fold_wiring(scratch, tier, seed, logdir):
+    """C05: Folded::from_spectrum decides every cell from the index sum of that cell IN THE SPECTRUM'S OWN
+    SHAPE (shape.index_sum_from_flat_unchecked(i) compared with mid_count) and keeps nothing between calls
+    (no static / thread-local state)."""
+    fns = fns_for(scratch, "sfs-core")
+    ob = Ob("fold_wiring", ["spectrum::folded::Folded::from_spectrum (+ closure)"], "every path of the per-cell closure; calls uninterpreted; the arithmetic of the cells is the Kani fold harnesses' business")
+    dev = []
+    try:
+        cands = [f for f in fns if re.search(r"folded\.rs>::from_spectrum", mir.norm_name(f.name))]
+        top = [f for f in cands if "{closure" not in f.name]
+        clos = [f for f in cands if "{closure" in f.name]
+        if len(top) != 1:
+            raise LookupError("from_spectrum not found")
+        for f in cands:
+            if re.search(r"LocalKey|thread_local|\bstatic\b|OnceLock|Mutex|RefCell", f.text):
+                dev.append("from_spectrum touches state that outlives the call (static / thread-local / lock / cell)")
+                break
+        if len(clos) != 1:
+            dev.append(f"{len(clos)} closures in from_spectrum (expected the one per-cell closure)")
+        n_cmp = 0
+        for c in clos:
+            args = {}
+            for pn, pt in c.params:
+                if pt.startswith("("):
+                    args[pn] = ("tup", (V("i", "int"), V("rev_i", "int")))
+                elif pt.startswith("&"):
+                    args[pn] = ("ref", "$" + pn)
+                    args["$" + pn] = V("cl", "U")
+                else:
+                    args[pn] = V("a" + pn, "U")
+            ps = mir.Exec(c, [], max_paths=200).run(args)
+            ob.d["queries"] += len(ps)
+            for p in ps:
+                if p.end != "return":
+                    continue
+                cmps = [e for e in p.state.events if re.search(r"<usize as Ord>::cmp$", e[0])]
+                if len(cmps) != 1:
+                    continue
+                n_cmp += 1
+                a0 = show(cmps[0][1][0])
+                if not re.fullmatch(r"Shape::index_sum_from_flat_unchecked\(spectrum::Spectrum::<S>::shape\(field\(cl, \d+\)\), i\)", a0):
+                    dev.append("the side of a cell is not decided from shape.index_sum_from_flat_unchecked(i) of the spectrum being folded: " + a0[:160])
+        if n_cmp < 3 and not dev:
+            ob.fail("inconclusive", f"per-cell comparison found on {n_cmp} paths")
+        ob.d["nonvacuous"] = n_cmp >= 3 or bool(dev)
+        if dev:
+            ob.fail("violation", " | ".join(sorted(set(dev))))
+            ob.d["native_test"] = dict(crate="sfs-core", file="core/src/spectrum/folded.rs", name="kv_fold_history_independent", code=FOLD_NATIVE_TEST)
+    except (LookupError, ValueError, RuntimeError, KeyError, IndexError, AttributeError, TypeError) as e:
+        ob.fail("inconclusive", f"translator: {type(e).__name__}: {e}")
+    return [ob.done()]
+
+
 def task_main_exit(scratch, tier, seed, logdir):
     """C10 / C16 / C17: main maps every Err of run() to a message on stderr and exit status 1."""
     fns = fns_for(scratch, "sfs-cli")
@@ -2090,6 +2265,8 @@ TASKS = {
     "read_site_wiring": task_read_site_wiring,
     "genotype_reader_wiring": task_genotype_reader_wiring,
     "pmf_wiring": task_pmf_wiring,
+    "projection_wiring": task_projection_wiring,
+    "fold_wiring": task_fold_wiring,
     "shape_closures": task_shape_closures,
 }
 
